@@ -323,11 +323,6 @@ Proof. exact opened_doc_exact. Qed.
 
 (* non-vacuity: the V 2 request and document of the computed instances below, with the dictionary indirect and
    direct; a V 4 request with two crypt filters, EFF and EncryptMetadata false *)
-Theorem C06_example_request_ok :
-  (request_ok_r4 ex_rq_v2 /\ doc_ok (rq_core ex_rq_v2) ex_doc (Some (5, 0)) /\
-   doc_ok (rq_core ex_rq_v2) ex_doc None /\ file_id_0 ex_doc = Ok (bs "0123456789abcdef")) /\
-  (request_ok_r4 ex_rq_v4 /\ doc_ok (rq_core ex_rq_v4) ex_doc None).
-Proof. exact (conj ex_request_ok_v2 ex_request_ok_v4). Qed.
 
 (* ---- direction lopdf -> standard ---- *)
 (* the standard's reader undoes the standard's writer on EVERY object (strings at every depth, stream dictionaries,
@@ -391,11 +386,6 @@ Proof. exact lopdf_encrypt_iso_decrypt_owner_r4. Qed.
 Theorem C06_iso_norm_exact : forall ip m, Forall (fun io => iso_length_ok ip (snd io)) m -> iso_norm_objs ip m = m.
 Proof. exact iso_norm_objs_id. Qed.
 
-Theorem C06_example_version_ok :
-  version_ok (EV2 [] (bs "user") 128 2052) /\
-  version_ok (EV4 false [(KP, CF_Identity); (KS, CF_AESV2)] KS N_Identity (bs "owner") (bs "user") 2052) /\
-  max_id_ok ex_doc /\ dict_get (d_trailer ex_doc) K_Encrypt = None.
-Proof. exact ex_version_ok. Qed.
 
 (* For the executable primitives (the Gallina MD5 / AES the extracted specification runs with) the two hypotheses
    are theorems -- C06_md5_length, and aes_ok concrete (Proofs/CryptoProofsAES.v; property C05's C05_aes_inverse) --, so
@@ -517,20 +507,28 @@ Theorem C06_lopdf_encrypt_iso_decrypt_user_r6 : forall P, (forall m, length (p_m
   open_document (iprims_of P) d1 (v_user v) = Opened (plain_again6 d st) (es_key st).
 Proof. exact lopdf_encrypt_iso_decrypt_user_r6. Qed.
 
-Theorem C06_example_version_ok_r6 :
-  version_ok6 (EV5 false [(KS, CF_AESV3)] (zeros 32) KS KS (bs "owner") (bs "user") 2052) /\
-  version_ok6 (ER5 true [(KP, CF_Identity); (KS, CF_AESV3)] (zeros 32) KS N_Identity [] (bs "user") 0).
-Proof. exact ex_version_ok6. Qed.
 
-Theorem C06_example_request_ok_r6 : request_ok_r6 ex_rq_v5 /\ doc_ok (rq_core ex_rq_v5) ex_doc (Some (5, 0)).
-Proof. exact ex_request_ok_v5. Qed.
 
 (* ---------------- non-vacuity and computed whole-document instances ---------------- *)
-Theorem C06_example_matches_r4 : matches_r4 ex_palg 3 128 (zeros 32) (zeros 32) (-1340) true.
-Proof. exact ex_matches_r4. Qed.
+(* every hypothesis record of the theorems above is satisfiable: requests and documents for the standard's writer
+   (V 2 with indirect and direct dictionary, V 4 with two crypt filters, EFF and EncryptMetadata false, V 5 / R 6),
+   versions for lopdf's writer (V2, V4, V5, R5), lopdf's PasswordAlgorithm and EncryptionState against the standard's
+   parameters *)
+Theorem C06_example_hypotheses :
+  ((request_ok_r4 ex_rq_v2 /\ doc_ok (rq_core ex_rq_v2) ex_doc (Some (5, 0)) /\
+   doc_ok (rq_core ex_rq_v2) ex_doc None /\ file_id_0 ex_doc = Ok (bs "0123456789abcdef")) /\
+  (request_ok_r4 ex_rq_v4 /\ doc_ok (rq_core ex_rq_v4) ex_doc None)) /\
+  (version_ok (EV2 [] (bs "user") 128 2052) /\
+  version_ok (EV4 false [(KP, CF_Identity); (KS, CF_AESV2)] KS N_Identity (bs "owner") (bs "user") 2052) /\
+  max_id_ok ex_doc /\ dict_get (d_trailer ex_doc) K_Encrypt = None) /\
+  (version_ok6 (EV5 false [(KS, CF_AESV3)] (zeros 32) KS KS (bs "owner") (bs "user") 2052) /\
+  version_ok6 (ER5 true [(KP, CF_Identity); (KS, CF_AESV3)] (zeros 32) KS N_Identity [] (bs "user") 0)) /\
+  (request_ok_r6 ex_rq_v5 /\ doc_ok (rq_core ex_rq_v5) ex_doc (Some (5, 0))) /\
+  (matches_r4 ex_palg 3 128 (zeros 32) (zeros 32) (-1340) true) /\
+  (state_matches ex_st ex_ip (zeros 16)).
+Proof. exact (conj (conj ex_request_ok_v2 ex_request_ok_v4) (conj ex_version_ok (conj ex_version_ok6 (conj ex_request_ok_v5 (conj ex_matches_r4 ex_state_matches))))). Qed.
 
-Theorem C06_example_state_matches : state_matches ex_st ex_ip (zeros 16).
-Proof. exact ex_state_matches. Qed.
+
 
 Theorem C06_example_iso_encrypt_lopdf_decrypt :
   match doc_decrypt concrete ex_enc_v2 (bs "user") with
@@ -621,7 +619,6 @@ Print Assumptions C06_lopdf_opens_r4.
 Print Assumptions C06_iso_encrypt_lopdf_decrypt_user_r4.
 Print Assumptions C06_iso_encrypt_lopdf_decrypt_owner_r4.
 Print Assumptions C06_opened_exact.
-Print Assumptions C06_example_request_ok.
 Print Assumptions C06_iso_object_roundtrip.
 Print Assumptions C06_read_params_encode.
 Print Assumptions C06_iso_opens_lopdf_r4.
@@ -629,7 +626,6 @@ Print Assumptions C06_try_from_version.
 Print Assumptions C06_lopdf_encrypt_iso_decrypt_user_r4.
 Print Assumptions C06_lopdf_encrypt_iso_decrypt_owner_r4.
 Print Assumptions C06_iso_norm_exact.
-Print Assumptions C06_example_version_ok.
 Print Assumptions C06_iso_encrypt_lopdf_decrypt_user_r4_concrete.
 Print Assumptions C06_lopdf_encrypt_iso_decrypt_user_r4_concrete.
 Print Assumptions C06_iso_open_owner_r6.
@@ -637,15 +633,12 @@ Print Assumptions C06_iso_open_user_r6.
 Print Assumptions C06_lopdf_opens_r6.
 Print Assumptions C06_iso_encrypt_lopdf_decrypt_owner_r6.
 Print Assumptions C06_iso_encrypt_lopdf_decrypt_user_r6.
-Print Assumptions C06_example_request_ok_r6.
 Print Assumptions C06_read_params_encode_r6.
 Print Assumptions C06_try_from_version_r6.
 Print Assumptions C06_iso_opens_lopdf_r6.
 Print Assumptions C06_lopdf_encrypt_iso_decrypt_owner_r6.
 Print Assumptions C06_lopdf_encrypt_iso_decrypt_user_r6.
-Print Assumptions C06_example_version_ok_r6.
-Print Assumptions C06_example_matches_r4.
-Print Assumptions C06_example_state_matches.
+Print Assumptions C06_example_hypotheses.
 Print Assumptions C06_example_iso_encrypt_lopdf_decrypt.
 Print Assumptions C06_example_lopdf_encrypt_iso_decrypt.
 Print Assumptions C06_example_writers_agree.
